@@ -7,5 +7,5 @@ MCShapes == AllSessionShapes
 MCScript == IF MCLong THEN <<"LoadPlan", "FreshObj", "CopyFrom", "CopyTo", "FreshObj", "CopyFrom">> ELSE <<"LoadPlan", "FreshObj", "CopyFrom", "CopyTo", "FreshObj", "CopyFrom">>
 MCProps == {"C08"}
 ASSUME PrintT("SHAPES " \o ToJson(MCShapes))
-INSTANCE Session WITH Shapes <- MCShapes, Script <- MCScript, Deep <- MCDeep, Props <- MCProps, ObjMode <- "all", RawMode <- "plans"
+INSTANCE Session WITH Shapes <- MCShapes, Script <- MCScript, Deep <- MCDeep, Props <- MCProps, ObjMode <- "all", RawMode <- "plans", EmptyMode <- "plain"
 ====
